@@ -40,8 +40,9 @@ def _lean_dir():
             pass
     d = Path(tempfile.mkdtemp(prefix="lean-mutant-", dir=str(CACHE)))
     src = VERIF / "lean"
-    subprocess.run(["flock", str(src / ".lakelock"), "rsync", "-a", "--exclude", ".lakelock",
+    subprocess.run(["flock", str(src / ".lakelock"), "rsync", "-a", "--omit-dir-times", "--exclude", ".lakelock",
                     str(src) + "/", str(d) + "/"], check=False)
+    os.utime(d)      # the copy must look young: the cleanup loop above (run by other processes) goes by mtime
     os.environ["VERIF_LEAN"] = str(d)           # tools/lk and tools/gen_lean.py follow it
     pid = os.getpid()
     atexit.register(lambda: os.getpid() == pid and shutil.rmtree(d, ignore_errors=True))
